@@ -19,11 +19,12 @@ Qed.
 Lemma sumf_init k progs : sumf (cnt k) (map init_thread progs) = 0.
 Proof. induction progs as [|p l IH]; cbn [map sumf]; [reflexivity|]. rewrite IH. reflexivity. Qed.
 
-Lemma init_inv level progs : ginv (init level progs).
+Lemma initb_inv level b progs : ginv (initb level b progs).
 Proof.
-  constructor; cbn [init sh ths lvl cur minv ar aw lck].
+  constructor; cbn [initb sh ths lvl cur minv ar aw lck mail].
   - rewrite sumf_init. reflexivity.
   - rewrite sumf_init. reflexivity.
+  - constructor.
   - lia.
   - intros _. lia.
   - intros _. split; reflexivity.
@@ -31,14 +32,21 @@ Proof.
     apply tinv_idle; [reflexivity|reflexivity|constructor].
 Qed.
 
+Lemma init_inv level progs : ginv (init level progs).
+Proof. apply initb_inv. Qed.
+
+Lemma reachb_inv level b progs sched : ginv (run true sched (initb level b progs)).
+Proof. apply run_inv. apply initb_inv. Qed.
 Lemma reach_inv level progs sched : ginv (run true sched (init level progs)).
-Proof. apply run_inv. apply init_inv. Qed.
+Proof. apply reachb_inv. Qed.
 
 (* ---------- consequences of the invariant ---------- *)
 Lemma live_count_le k st :
-  count_kind k (live st) <= sumf (cnt k) (ths st).
+  count_kind k (live st) <= sumf (cnt k) (ths st) + count_kind k (mail (sh st)).
 Proof.
-  unfold live. rewrite count_kind_flat_map. apply sumf_le. intros th. unfold cnt. lia.
+  unfold live. rewrite count_kind_app, count_kind_flat_map.
+  assert (sumf (fun th => count_kind k (tokens_of th)) (ths st) <= sumf (cnt k) (ths st)); [|lia].
+  apply sumf_le. intros th. unfold cnt. lia.
 Qed.
 
 Lemma ginv_writer_exclusion st : ginv st -> lvl (sh st) = 3 -> count_kind KW (live st) <= 1.
@@ -49,7 +57,9 @@ Qed.
 Lemma ginv_min_le_live st t :
   ginv st -> In t (live st) -> tracked t -> minv (sh st) <= tv t /\ tv t <= cur (sh st).
 Proof.
-  intros G I K. unfold live in I. apply in_flat_map in I. destruct I as (th & Hth & Ht).
+  intros G I K. unfold live in I. apply in_app_or in I. destruct I as [I|I].
+  2:{ pose proof (g_mail _ G) as F. rewrite Forall_forall in F. apply (F t I K). }
+  apply in_flat_map in I. destruct I as (th & Hth & Ht).
   apply In_nth_error in Hth. destruct Hth as (i & E).
   pose proof (tinv_tokens _ _ _ (g_th _ G _ _ E)) as F. rewrite Forall_forall in F.
   apply (F t Ht K).
@@ -59,14 +69,14 @@ Lemma ginv_counters_quiescent st :
   ginv st -> quiescent st ->
   ar (sh st) = count_kind KR (live st) /\ aw (sh st) = count_kind KW (live st).
 Proof.
-  intros G Q. rewrite (g_ar _ G), (g_aw _ G). unfold live. rewrite !count_kind_flat_map.
-  split; apply sumf_ext_in; intros th Hth; apply cnt_idle; apply Q; exact Hth.
+  intros G Q. rewrite (g_ar _ G), (g_aw _ G). unfold live. rewrite !count_kind_app, !count_kind_flat_map.
+  split; f_equal; apply sumf_ext_in; intros th Hth; apply cnt_idle; apply Q; exact Hth.
 Qed.
 
 Lemma all_done_no_tokens st th :
   ginv st -> all_done st -> In th (ths st) -> tokens_of th = [].
 Proof.
-  intros G D Hth. destruct (D th Hth) as (P & C).
+  intros G [DM D] Hth. destruct (D th Hth) as (P & C).
   apply In_nth_error in Hth. destruct Hth as (i & E).
   assert (EP : pend th = []) by (apply (i_pend _ _ _ (g_th _ G _ _ E)); rewrite P; reflexivity).
   unfold cur_op in C. unfold tokens_of.
@@ -78,9 +88,9 @@ Qed.
 Lemma ginv_counters_zero st : ginv st -> all_done st -> ar (sh st) = 0 /\ aw (sh st) = 0.
 Proof.
   intros G D.
-  assert (Q : quiescent st) by (intros th Hth; apply (D th Hth)).
+  assert (Q : quiescent st) by (intros th Hth; apply (proj2 D th Hth)).
   destruct (ginv_counters_quiescent st G Q) as (A & W). rewrite A, W.
-  unfold live. rewrite !count_kind_flat_map.
+  unfold live. rewrite (proj1 D), !app_nil_r, !count_kind_flat_map.
   split; (erewrite sumf_ext_in with (g := fun _ => 0);
     [ clear; induction (ths st) as [|a l IH]; cbn [sumf]; [reflexivity|rewrite IH; reflexivity]
     | intros th Hth; rewrite (all_done_no_tokens st th G D Hth); reflexivity ]).
@@ -113,6 +123,7 @@ Proof.
   intros G E P I K.
   assert (1 <= aw (sh st)).
   { rewrite (g_aw _ G). pose proof (live_count_le KW st) as L.
+    set (sm := sumf (cnt KW) (ths st) + count_kind KW (mail (sh st))) in *.
     assert (1 <= count_kind KW (live st)); [|lia].
     clear - I K. induction (live st) as [|x l IH]; [contradiction|].
     rewrite (count_kind_cons KW x l). destruct I as [->|I].
